@@ -35,6 +35,8 @@ checks = {
  "C16": dict(text="Direct bit-vector queries over the complete domain: mask x F x all of GPR for GetFlag/SetFlag/ResetFlag (stated bit by bit), the eight constants, all 65536 values for SetU16/U16.", note="Complete domain; trusted: engine + z3.", ref="§5 C16"),
 }
 
+checks["C19"] = dict(text="run() of both commands is executed symbolically from an in-package harness with flag/os/bufio replaced by contract stubs: image of symbolic length L (1..65536) and content, symbolic offset with off+L-1 <= 0xFFFF, file-name lengths 1..12 and -nam lengths 1..12 case-split with symbolic characters; every header byte, the total length and the body (compared at a symbolic offset with the input slice) are obligations; only flushed output counts.",
+             note="Stubs (each part of the claim): flag.*Var/Parse, os.ReadFile, os.Create, File.Close, bufio.NewWriter/WriteByte/Write/Flush. Error returns of the environment end the path. The operating system and real files are outside; the native replay uses real temp files.", ref="§5 C19")
 na_reason = {
 }
 
